@@ -90,3 +90,36 @@ Theorem C07_string_fuel_irrelevant : forall l acc f1 f2,
   (List.length l < f1)%nat -> (List.length l < f2)%nat -> parse_str f1 l acc = parse_str f2 l acc.
 Proof. intros l acc f1 f2. apply (parse_str_fuel_irrelevant (List.length l)). apply le_n. Qed.
 Print Assumptions C07_string_fuel_irrelevant.
+
+(* ---------- the whole command (Model/Job.v: main.go's Run end to end) ---------- *)
+From Model Require Import Base64 KeyFile Cli Atlas Job.
+From Proofs Require Import JobProofs.
+
+(* whatever bytes the lines hold: a local job whose input holds no line over the reader's limit, whose output can be created and whose
+   writes are accepted, ends with status 0, and its destination holds the in-order concatenation of what each line yields on its own *)
+Theorem C07_job_never_aborts : forall tb cs a w m fs1 fs2 enc data bar,
+  decide (flags_of a w) = CAccept m -> m <> MAtlas ->
+  stage_out a w = Some fs1 -> stage_key a w fs1 = Some (fs2, enc) ->
+  (nonempty_s (a_out a) = true -> a_encrypt a && nonempty_s (a_keyfile a) = true -> a_keyfile a <> a_out a) ->
+  local_input a w m fs2 = Some (data, REof, bar) ->
+  (forall i, w_writer w i = Accept) -> snd (scan data REof) = SOk ->
+  j_status (job tb cs a w) = Exit0 /\
+  dest a (job tb cs a w) = List.concat (map (emit tb cs (a_cfg a) enc) (fst (scan data REof))).
+Proof.
+  intros. destruct (job_local_output_gen tb cs a w m fs1 fs2 enc data bar) as [S D]; try assumption.
+  split; [exact S|]. rewrite D. apply stream_is_map.
+Qed.
+Print Assumptions C07_job_never_aborts.
+
+(* the single content-dependent stop: a line over the limit ends the run with status 1 (never 0), and the destination holds the redaction
+   of the lines before it - nothing of the long line, nothing of what follows *)
+Theorem C07_job_toolong : forall tb cs a w m fs1 fs2 enc data e bar,
+  decide (flags_of a w) = CAccept m -> m <> MAtlas ->
+  stage_out a w = Some fs1 -> stage_key a w fs1 = Some (fs2, enc) ->
+  (nonempty_s (a_out a) = true -> a_encrypt a && nonempty_s (a_keyfile a) = true -> a_keyfile a <> a_out a) ->
+  local_input a w m fs2 = Some (data, e, bar) ->
+  (forall i, w_writer w i = Accept) -> snd (scan data e) = STooLong ->
+  j_status (job tb cs a w) = Exit1 /\
+  dest a (job tb cs a w) = List.concat (map (emit tb cs (a_cfg a) enc) (fst (scan data e))).
+Proof. exact job_toolong. Qed.
+Print Assumptions C07_job_toolong.
